@@ -176,11 +176,11 @@ impl SourceView {
         #[cfg(sourcemap_verif)]
         crate::verif::yield_point(0);
         let idx = idx as usize;
-        {
-            let lines = self.lines.lock().unwrap();
-            if idx < lines.len() {
-                return Some(lines[idx]);
-            }
+        // hold the lock for the whole call: the cache and the progress counter
+        // must be examined and advanced together
+        let mut lines = self.lines.lock().unwrap();
+        if idx < lines.len() {
+            return Some(lines[idx]);
         }
 
         #[cfg(sourcemap_verif)]
@@ -192,7 +192,6 @@ impl SourceView {
 
         #[cfg(sourcemap_verif)]
         crate::verif::yield_point(2);
-        let mut lines = self.lines.lock().unwrap();
         let mut done = false;
 
         while !done {
